@@ -151,4 +151,126 @@ theorem srun_can_complete (cfg : Cfg) (n : Nat) (sched : List Nat) :
   rw [srunFrom_append]
   exact hc
 
+/-! ### progress under a fair scheduler -/
+
+/-- a step either leaves the state as it is (finished / blocked / not existing thread) or brings
+the system closer to the end -/
+theorem sstep_same_or_lt (cfg : Cfg) (n : Nat) (s : SState) (t : Nat) :
+    sstep cfg n s t = s ∨ (sstep cfg n s t).measure n < s.measure n := by
+  by_cases ht : t < n
+  · by_cases hd : s.pc t = .done
+    · left; unfold sstep; split <;> simp [hd]
+    · by_cases hb : s.blocked t = false
+      · exact Or.inr (sstep_measure_lt cfg n s t ht hd hb)
+      · left
+        have hb' : s.blocked t = true := by simpa using hb
+        simp only [SState.blocked, Bool.and_eq_true, beq_iff_eq] at hb'
+        have hl : ¬ s.lock = none := by
+          intro h; rw [h] at hb'; simp at hb'
+        simp [sstep, ht, hb'.1, hl]
+  · exact Or.inl (sstep_ge cfg n s t ht)
+
+/-- an infinite schedule -/
+abbrev Sched := Nat → Nat
+
+/-- the state after the first `k` entries of an infinite schedule -/
+def srunInf (cfg : Cfg) (n : Nat) (f : Sched) : Nat → SState
+  | 0 => SState.init
+  | k + 1 => sstep cfg n (srunInf cfg n f k) (f k)
+
+/-- weak fairness: every thread is scheduled again and again -/
+def Fair (n : Nat) (f : Sched) : Prop := ∀ t, t < n → ∀ k, ∃ k', k ≤ k' ∧ f k' = t
+
+theorem srunInf_eq (cfg : Cfg) (n : Nat) (f : Sched) : ∀ k, srunInf cfg n f k = srun cfg n ((List.range k).map f) := by
+  intro k
+  induction k with
+  | zero => rfl
+  | succ k ih =>
+    simp only [srunInf, ih, srun, srunFrom, List.range_succ, List.map_append, List.foldl_append, List.map_cons,
+      List.map_nil, List.foldl_cons, List.foldl_nil]
+
+theorem srunInf_measure_mono (cfg : Cfg) (n : Nat) (f : Sched) (k d : Nat) :
+    (srunInf cfg n f (k + d)).measure n ≤ (srunInf cfg n f k).measure n := by
+  induction d with
+  | zero => exact Nat.le_refl _
+  | succ d ih =>
+    show (sstep cfg n (srunInf cfg n f (k + d)) (f (k + d))).measure n ≤ _
+    exact Nat.le_trans (sstep_measure_le cfg n _ _) ih
+
+/-- if thread `u` can move now and is scheduled `d` entries later, the system is strictly closer
+to the end right after that entry: either somebody moved in between, or nothing changed and `u`
+itself moves -/
+theorem srunInf_progress (cfg : Cfg) (n : Nat) (f : Sched) (u : Nat) (hu : u < n) : ∀ d k,
+    (srunInf cfg n f k).pc u ≠ .done → (srunInf cfg n f k).blocked u = false → f (k + d) = u →
+    (srunInf cfg n f (k + d + 1)).measure n < (srunInf cfg n f k).measure n := by
+  intro d
+  induction d with
+  | zero =>
+    intro k hnd hb hf
+    show (sstep cfg n (srunInf cfg n f k) (f k)).measure n < _
+    have : f k = u := hf
+    rw [this]
+    exact sstep_measure_lt cfg n _ u hu hnd hb
+  | succ d ih =>
+    intro k hnd hb hf
+    rcases sstep_same_or_lt cfg n (srunInf cfg n f k) (f k) with hsame | hlt
+    · have e : srunInf cfg n f (k + 1) = srunInf cfg n f k := hsame
+      have h := ih (k + 1) (by rw [e]; exact hnd) (by rw [e]; exact hb)
+        (by rw [show k + 1 + d = k + (d + 1) by omega]; exact hf)
+      rw [e] at h
+      rw [show k + (d + 1) + 1 = k + 1 + d + 1 by omega]
+      exact h
+    · have hm := srunInf_measure_mono cfg n f (k + 1) (d + 1)
+      have e : (srunInf cfg n f (k + 1)).measure n < (srunInf cfg n f k).measure n := hlt
+      rw [show k + (d + 1) + 1 = k + 1 + (d + 1) by omega]
+      omega
+
+theorem sinv_inf (cfg : Cfg) (n : Nat) (f : Sched) (k : Nat) : SInv (srunInf cfg n f k) := by
+  rw [srunInf_eq]; exact sinv_run cfg n _
+
+theorem sbound_inf (cfg : Cfg) (n : Nat) (f : Sched) (k : Nat) : SBound n (srunInf cfg n f k) := by
+  rw [srunInf_eq]; exact sbound_run cfg n _
+
+theorem complete_of_measure_zero (n : Nat) (s : SState) (h : s.measure n = 0) : s.complete n := by
+  intro t ht
+  have h0 := sumTo_zero _ n h t ht
+  cases hpc : s.pc t <;> simp [hpc, SPc.rem] at h0 ⊢
+
+/-- **every fair schedule completes**: under weak fairness all `n` threads return from
+`instance()` after finitely many entries -/
+theorem fair_completes (cfg : Cfg) (n : Nat) (f : Sched) (hf : Fair n f) :
+    ∀ m k, (srunInf cfg n f k).measure n ≤ m → ∃ N, k ≤ N ∧ (srunInf cfg n f N).complete n := by
+  intro m
+  induction m with
+  | zero => intro k hm; exact ⟨k, Nat.le_refl _, complete_of_measure_zero n _ (Nat.le_zero.mp hm)⟩
+  | succ m ih =>
+    intro k hm
+    by_cases hall : ∀ t, t < n → (srunInf cfg n f k).pc t = .done
+    · exact ⟨k, Nat.le_refl _, hall⟩
+    · have ⟨t, hnot⟩ := Classical.not_forall.mp hall
+      have ⟨ht, hnd⟩ := Classical.not_imp.mp hnot
+      obtain ⟨u, hu, hund, hub⟩ := (sinv_inf cfg n f k).progress n (sbound_inf cfg n f k) ht hnd
+      obtain ⟨k', hk', hfu⟩ := hf u hu k
+      obtain ⟨d, rfl⟩ : ∃ d, k' = k + d := ⟨k' - k, by omega⟩
+      have hlt := srunInf_progress cfg n f u hu d k hund hub hfu
+      obtain ⟨N, hN, hc⟩ := ih (k + d + 1) (by omega)
+      exact ⟨N, by omega, hc⟩
+
+/-- once complete, always complete -/
+theorem complete_stable (cfg : Cfg) (n : Nat) (f : Sched) (N : Nat) (h : (srunInf cfg n f N).complete n) :
+    ∀ d, (srunInf cfg n f (N + d)).complete n := by
+  intro d
+  apply complete_of_measure_zero
+  have h0 : (srunInf cfg n f N).measure n = 0 := by
+    unfold SState.measure
+    have : sumTo (fun t => ((srunInf cfg n f N).pc t).rem) n = sumTo (fun _ => 0) n :=
+      sumTo_congr _ _ n (fun t ht => by rw [h t ht]; rfl)
+    rw [this]
+    clear this h
+    induction n with
+    | zero => rfl
+    | succ n ih => simp only [sumTo]; omega
+  have := srunInf_measure_mono cfg n f N d
+  omega
+
 end CelmaVerif.Concurrency
